@@ -178,6 +178,11 @@ class Ledger(Process):
         if self.parameters.get('amount2'):
             # a second port wired to the accumulator's node: one returned update carries two parts for it
             schema['acc2'] = {'_default': 0, '_emit': True}
+        if self.parameters.get('pair'):
+            # two dictionary ports wired to one store; their parts of the update are dictionaries the
+            # process builds once and returns at every invocation
+            schema['da'] = {'x': {'_default': 0, '_emit': True}}
+            schema['db'] = {'y': {'_default': 0, '_emit': True}}
         return schema
 
     def calculate_timestep(self, states):
@@ -221,6 +226,10 @@ class Ledger(Process):
         upd = {'log': [tok], 'own': [tok], 'acc': amount, 'clock': timestep}
         if self.parameters.get('amount2'):
             upd['acc2'] = self.parameters['amount2']
+        if self.parameters.get('pair'):
+            if not hasattr(self, '_pair'):
+                self._pair = ({'x': amount}, {'y': 10 * amount})
+            upd['da'], upd['db'] = self._pair
         tg = self.parameters.get('toggle')
         if tg and self.k % tg == 0:
             upd['flag'] = not states['flag']
